@@ -114,3 +114,9 @@ func (is *IndexSnapshot) VerifEpoch() uint64 { return is.epoch }
 
 // VerifNumSegments returns the number of segments of this snapshot.
 func (is *IndexSnapshot) VerifNumSegments() int { return len(is.segment) }
+
+// VerifBoltFileNames returns the segment file names that the snapshots
+// recorded in the metadata store (root.bolt) name, read in a fresh transaction.
+func (s *Scorch) VerifBoltFileNames() (map[string]struct{}, error) {
+	return s.loadZapFileNames()
+}
